@@ -126,6 +126,7 @@ func workerMain(args []string) int {
 		journalOpen(journal)
 		debug.SetMaxStack(64 << 20)
 	}
+	intUniverseMode = j.s("intset", "")
 	res := &JobResult{Job: j}
 	write := func() {
 		b, _ := json.Marshal(res)
@@ -651,6 +652,7 @@ func writeReplay(prop string, j Job, r *JobResult, sig string) string {
 	os.WriteFile(p, b, 0o644)
 	// a plain Go unit test performing the same calls without the explorer
 	if mk, ok := sysForJob[j.Kind]; ok {
+		intUniverseMode = j.s("intset", "")
 		if s := mk(j); s != nil {
 			if src := goTestFor(s, r.Found.Path, r.Found.Last, fmt.Sprintf("Replay_%s_%x", prop, h[:5]), r.Found.V.Msg); src != "" {
 				os.WriteFile(strings.TrimSuffix(p, ".json")+"_test.go.txt", []byte(src), 0o644)
